@@ -222,11 +222,11 @@ func runC01(c *Ctx) {
 					if s, ok := dataV.(*ssa.Slice); ok && s.Low == nil && s.High != nil {
 						filled := false
 						for _, l := range leavesOf(s.High) {
-							if l.Kind == leafCallResult && callIs(l.Call, "io.ReadFull") && l.Idx == 0 && sameValue(l.Call.Args[1], s.X) {
+							if l.Kind == leafCallResult && isFillCall(l.Call) && l.Idx == 0 && sameValue(l.Call.Args[1], s.X) {
 								filled = true
 							}
 						}
-						c.check(filled, "R1", site+" (ii) Data is what was just read", pos(a), "Data = buf[:n] with n from io.ReadFull(r, buf)", "Data is not the prefix filled by this iteration's io.ReadFull")
+						c.check(filled, "R1", site+" (ii) Data is what was just read", pos(a), "Data = buf[:n] with n from the fill of buf (io.ReadFull or the package's readFull)", "Data is not the prefix filled by this iteration's read of the source")
 					}
 				}
 				if lp == nil {
@@ -323,7 +323,7 @@ func runC01(c *Ctx) {
 					if lv, ok := lenV.(*ssa.Convert); ok {
 						if ext, ok := lv.X.(*ssa.Extract); ok {
 							// n from io.ReadFull(r, b) with b = make([]byte, maxPacket)
-							if call, ok := ext.Tuple.(*ssa.Call); ok && callIs(&call.Call, "io.ReadFull") {
+							if call, ok := ext.Tuple.(*ssa.Call); ok && isFillCall(&call.Call) {
 								if madeWith(call.Call.Args[1], "maxPacket") {
 									bounded = true
 								}
@@ -434,6 +434,7 @@ func runC01(c *Ctx) {
 	// R9: the File offset after a transfer (shared with C12.R5): the next Read/Write starts where this one ended
 	checkOffsetStores(c, "R9", nil)
 	checkWriteToEndsAtEOF(c, "R10")
+	checkSourceErrorsReturned(c, "R11")
 }
 
 // checkPoolDiscipline: chunks travel between the goroutines of a transfer in pooled buffers.  pool.Put(b) makes b
@@ -922,4 +923,79 @@ func checkWriteToEndsAtEOF(c *Ctx, rule string) {
 	}
 	c.check(bad == "" && n >= 1, rule, "WriteTo reports success only after a read reported EOF", p.Pos(fn.Pos()), fmt.Sprintf("%d nil results, each under packet.err == io.EOF", n),
 		"WriteTo can return a nil error (at "+bad+") without any read having reported end of file, e.g. because the stat size says so: a file whose attributes are stale or synthetic (procfs, a replaced name) is reported as copied although none or only part of it was")
+}
+
+// checkSourceErrorsReturned (C01.R11): ReadFrom follows io.ReaderFrom — "any error except EOF encountered during the
+// read is also returned".  io.ReadFull manufactures io.ErrUnexpectedEOF for a source that ends inside a chunk, so code
+// that treats ErrUnexpectedEOF as the end of the data also swallows an ErrUnexpectedEOF the source itself returned
+// (a truncated HTTP body, a damaged gzip stream): the upload is cut short with a nil error.  Neither upload path may
+// test for io.ErrUnexpectedEOF.
+func checkSourceErrorsReturned(c *Ctx, rule string) {
+	p := c.P
+	for _, name := range []string{"(*File).ReadFrom", "(*File).readFromWithConcurrency"} {
+		fn := p.Func(name)
+		if fn == nil {
+			c.missing(rule, name)
+			continue
+		}
+		bad := ""
+		eachInstrDeep(fn, func(g *ssa.Function, in ssa.Instruction) {
+			var ops []ssa.Value
+			switch x := in.(type) {
+			case *ssa.BinOp:
+				if x.Op == token.EQL || x.Op == token.NEQ {
+					ops = []ssa.Value{x.X, x.Y}
+				}
+			case *ssa.Call:
+				if callIs(&x.Call, "errors.Is") {
+					ops = x.Call.Args
+				}
+			}
+			for _, o := range ops {
+				for _, l := range leavesOf(o) {
+					if l.Kind == leafGlobal && l.V.Name() == "ErrUnexpectedEOF" {
+						bad = p.Pos(in.Pos())
+					}
+				}
+			}
+		})
+		c.check(bad == "", rule, name+" returns the source's errors", p.Pos(fn.Pos()), "only io.EOF ends the upload quietly",
+			name+" treats io.ErrUnexpectedEOF as the end of the source (at "+bad+"): a source that itself fails with that error is uploaded short and the call reports success")
+	}
+}
+
+// isFillCall: io.ReadFull(r, buf), or the module's own fill helper with the same contract (0 <= n <= len(buf), buf[:n]
+// filled).  The helper is accepted only if its body is the canonical loop: it calls Read on buf[n:] where n is the
+// count it accumulates from Read's results and returns that n.
+func isFillCall(cc *ssa.CallCommon) bool {
+	if callIs(cc, "io.ReadFull") {
+		return true
+	}
+	f := cc.StaticCallee()
+	if f == nil || !inModule(f) || f.Name() != "readFull" || len(f.Params) != 2 {
+		return false
+	}
+	ok1, ok2 := false, false
+	eachInstr(f, func(in ssa.Instruction) {
+		call, ok := in.(*ssa.Call)
+		if !ok || !call.Call.IsInvoke() || call.Call.Method.Name() != "Read" {
+			return
+		}
+		if sl, ok := call.Call.Args[0].(*ssa.Slice); ok && sl.X == ssa.Value(f.Params[1]) && sl.High == nil && sl.Low != nil {
+			if ph, ok := sl.Low.(*ssa.Phi); ok {
+				// n' = n + nn
+				for _, e := range ph.Edges {
+					if b, ok := e.(*ssa.BinOp); ok && b.Op == token.ADD && (b.X == ssa.Value(ph) || b.Y == ssa.Value(ph)) {
+						ok1 = true
+					}
+				}
+				eachInstr(f, func(y ssa.Instruction) {
+					if r, ok := y.(*ssa.Return); ok && len(r.Results) == 2 && r.Results[0] == ssa.Value(ph) {
+						ok2 = true
+					}
+				})
+			}
+		}
+	})
+	return ok1 && ok2
 }
